@@ -339,3 +339,8 @@ mod test {
     test_match("($P) => $F($P)", "(x) => bar(x)");
   }
 }
+
+#[cfg(feature = "verif-hooks")]
+pub mod verif_hooks {
+  pub use super::strictness::verif_hooks as strictness;
+}
